@@ -255,9 +255,15 @@ class SimExecutor:
         self.s.point("executor.submit")
         return f
 
-    def shutdown(self, wait=True, **kw):
+    def shutdown(self, wait=True, cancel_futures=False, **kw):
         self.shut = True
         self.s.point("executor.shutdown")
+        if cancel_futures:
+            # like ThreadPoolExecutor: pending work items are cancelled, their done-callbacks run in the caller
+            pending, self.queue = self.queue, []
+            for f, _fn, _args in pending:
+                f._cancelled = True
+                f._finish()
 
     def _loop(self):
         while True:
